@@ -1269,6 +1269,11 @@ func (app *App) performSwitchover(clusterState map[string]*nodestate.NodeState, 
 		if err != nil {
 			return err
 		}
+		// turbo mode registers and relaxes a replica: restore it before anything is frozen or promoted
+		err = app.stopActiveNodeOptimization(oldMaster, activeNodes)
+		if err != nil {
+			return err
+		}
 	}
 
 	if switchover.MasterTransition != FailoverTransition {
